@@ -1122,6 +1122,21 @@ CONTROLS['C02'] = [
       "        if arr.resource_class not in self.multi_group_rcs:\n            return arr\n        return copy.copy(arr)"),
 ]
 
+CONTROLS['C02'] += [
+    M('c02-seen-replaced-not-accumulated', OAC,
+      "            for rc in rg_ctx.rcs:\n                if rc in seen_rcs:\n"
+      "                    rw_ctx.multi_group_rcs.add(rc)\n                else:\n"
+      "                    seen_rcs.add(rc)\n",
+      "            rw_ctx.multi_group_rcs |= seen_rcs & rg_ctx.rcs\n"
+      "            seen_rcs = rg_ctx.rcs\n", 'R2.2'),
+    B('c02-benign-setop-bookkeeping', OAC,
+      "            for rc in rg_ctx.rcs:\n                if rc in seen_rcs:\n"
+      "                    rw_ctx.multi_group_rcs.add(rc)\n                else:\n"
+      "                    seen_rcs.add(rc)\n",
+      "            rw_ctx.multi_group_rcs |= seen_rcs & rg_ctx.rcs\n"
+      "            seen_rcs |= rg_ctx.rcs\n"),
+]
+
 CONTROLS['C13'] = [
     M('c13-typo-filter-key', HRP,
       "        filters['member_of'], filters['forbidden_aggs'] = (",
